@@ -44,6 +44,9 @@ func (f *faultyReaderAt) ReadAt(p []byte, off int64) (int, error) {
 	return f.r.ReadAt(p, off)
 }
 
+// the kinds of file-system calls the last operation issued (for the fault-free run: the order of calls)
+var lastKinds []string
+
 // every operation of C15: runs with the k-th dependency call failing (k = -1: none)
 // and returns: result ("ok"/"err"), calls after the failing one ("0" close / "1" other),
 // whether the state of the objects is unchanged, and the number of dependency calls.
@@ -59,7 +62,12 @@ func c15Run(op string, k int, mode string, in []byte) (res string, after []strin
 		}
 		return "ok"
 	}
+	kindNo := map[string]string{"open": "0", "stat": "1", "read": "2", "write": "3", "close": "4"}
 	fsAfter := func(rec *recFs) {
+		lastKinds = nil
+		for _, c := range rec.calls {
+			lastKinds = append(lastKinds, kindNo[c])
+		}
 		for _, c := range rec.plan.after {
 			if c == "close" {
 				after = append(after, "0")
@@ -222,10 +230,10 @@ func init() {
 		var k int
 		fmt.Sscan(a[1], &k)
 		res, after, same, n := c15Run(a[0], k, a[2], unhx(a[3]))
-		return []string{res, strings.Join(after, ","), b01(same), fmt.Sprint(n)}
+		return []string{res, strings.Join(after, ","), b01(same), fmt.Sprint(n), strings.Join(lastKinds, ",")}
 	}
 	checkers["C15"] = checker{
-		rule: "operations: SignPKCS7, SignAuthenticode, PECOFFBinary.Sign, SignEFIVariable, WriteSignedUpdate with a failing crypto.Signer; WriteVar, attributes.WriteEfivars, WriteSignedUpdate, GetVar, GetVarWithAttributes, attributes.ReadEfivars, Getdb over a fault-injecting afero.Fs; Parse, Hash, Sign, Verify over a fault-injecting io.ReaderAt; for each operation and input a fault-free run in the sandboxed worker counts the dependency calls, then EVERY position k of that sequence is failed in turn (errors; for the write also a short count with and without an error; for reads of a variable also a legal short read, alone (the value must still be right) and followed by failing reads; for image reads also part of the data together with the error): exhaustive for the sequences the operation issues; R_C15 (extracted check_fault) requires: no success and no digest, only Close after a failed file-system call, the image object unchanged after a failed Sign, no file-system call after a failed signer, process alive (worker class return); non-trivial = every fault position, distinct by (operation, k, mode, input)",
+		rule: "operations: SignPKCS7, SignAuthenticode, PECOFFBinary.Sign, SignEFIVariable, WriteSignedUpdate with a failing crypto.Signer; WriteVar, attributes.WriteEfivars, WriteSignedUpdate, GetVar, GetVarWithAttributes, attributes.ReadEfivars, Getdb over a fault-injecting afero.Fs; Parse, Hash, Sign, Verify over a fault-injecting io.ReaderAt; for each operation and input a fault-free run in the sandboxed worker counts the dependency calls, then EVERY position k of that sequence is failed in turn (errors; for the write also a short count with and without an error; for reads of a variable also a legal short read, alone (the value must still be right) and followed by failing reads; for image reads also part of the data together with the error): exhaustive for the sequences the operation issues; the order of the calls of every fault-free run is compared with the program model's (extracted check_call_order: open, [stat, reads,] write, close; the signer before any file-system call); R_C15 (extracted check_fault) requires: no success and no digest, only Close after a failed file-system call, the image object unchanged after a failed Sign, no file-system call after a failed signer, process alive (worker class return); non-trivial = every fault position, distinct by (operation, k, mode, input)",
 		run:  runC15,
 	}
 }
@@ -275,6 +283,18 @@ func runC15(c *Ctx) {
 			}
 			var n int
 			fmt.Sscan(o.Fields[3], &n)
+			// the order of the dependency calls of the fault-free run is the program model's
+			if strings.HasPrefix(f.op, "fs/") && len(o.Fields) > 4 {
+				opNo, kinds := "1", o.Fields[4]
+				switch f.op {
+				case "fs/WriteVar", "fs/WriteEfivars-legacy":
+					opNo = "0"
+				case "fs/WriteSignedUpdate":
+					opNo, kinds = "2", "5,"+kinds // the signer is asked first
+				}
+				v, info := c.Drv.Eval("call_order", opNo, kinds)
+				c.Rep.Record(f.op, "call-order", true, kinds, []string{f.op, kinds}, v, info, map[string]string{"op": f.op, "what": "call-order"})
+			}
 			c.Rep.Histogram["calls/"+f.op] += n
 			modes := []string{"fail"}
 			if f.short {
